@@ -43,3 +43,63 @@ def tg_cat(a, b):
 def tg_f21(x):
     CALLS.append(x)
     return 2 * x + 1
+
+
+# ---- value universe with None / falsy results, and reducers for which None is not neutral
+def opt3(x):
+    CALLS.append(x)
+    return None if x % 3 == 0 else x
+
+
+def falsy(x):
+    CALLS.append(x)
+    return [None, 0, '', (), False, 0.0][x % 6]
+
+
+def boxed(x):
+    CALLS.append(x)
+    return None if x % 4 == 1 else (x,)
+
+
+def allornone(a, b):
+    """associative; None is absorbing, not neutral"""
+    if a is None or b is None:
+        return None
+    return a + b
+
+
+def first(a, b):
+    return a
+
+
+def last(a, b):
+    return b
+
+
+def pairup(a, b):
+    """associative on strings; shows every operand, None included"""
+    return '%s,%s' % (a, b)
+
+
+def g3(x):
+    CALLS.append(('g', x))
+    return 3 * x + 2
+
+
+@TaskGenerator
+def tg_g3(x):
+    CALLS.append(('g', x))
+    return 3 * x + 2
+
+
+@TaskGenerator
+def tg_opt3(x):
+    CALLS.append(x)
+    return None if x % 3 == 0 else x
+
+
+@TaskGenerator
+def tg_allornone(a, b):
+    if a is None or b is None:
+        return None
+    return a + b
